@@ -36,6 +36,7 @@ static addrxlat_status my_get_page(const addrxlat_cb_t *cb, addrxlat_buffer_t *b
 {
 	uint64_t a, base, size, blk, i;
 	unsigned as;
+	int fail;
 	struct pg *p;
 
 	a = buf->addr.addr; as = (unsigned)buf->addr.as;
@@ -46,13 +47,18 @@ static addrxlat_status my_get_page(const addrxlat_cb_t *cb, addrxlat_buffer_t *b
 		clear_error(the_ctx);
 	}
 	if ((a / 0x8000) % 2 == 0) {
-		blk = a / 0x1000;
-		if (blk % 8 == 5) return ADDRXLAT_ERR_NODATA;
+		blk = a / 0x1000; fail = (blk % 8 == 5);
 		base = blk * 0x1000; size = 0x1000;
 	} else {
-		blk = a / 0x100;
-		if (blk % 8 == 3) return ADDRXLAT_ERR_NODATA;
+		blk = a / 0x100; fail = (blk % 8 == 3);
 		base = blk * 0x100; size = 0x100;
+	}
+	if (fail) {
+		/* like libkdumpfile's own callback (vtop.c addrxlat_get_page): the buffer
+		 * metadata is filled in before the read is attempted */
+		buf->addr.addr = base;
+		buf->size = size;
+		return ADDRXLAT_ERR_NODATA;
 	}
 	p = malloc(sizeof *p);
 	p->data = malloc(size);
@@ -82,10 +88,13 @@ static void show_slots(addrxlat_ctx_t *ctx)
 	struct read_cache_slot *s = ctx->cache.mru;
 	int i;
 	putchar('[');
+	/* the address of an empty slot (size 0) is dead state -- no address hits it -- and a
+	 * failing callback may or may not have written it: printed as 0 */
 	for (i = 0; i < READ_CACHE_SLOTS; ++i, s = s->next)
 		printf("%s%d:%x:%" PRIx64 ":%zx:%d", i ? "," : "",
 		       (int)(s - ctx->cache.slot), (unsigned)s->buffer.addr.as,
-		       (uint64_t)s->buffer.addr.addr, s->buffer.size, s->buffer.ptr ? 0 : 1);
+		       s->buffer.size ? (uint64_t)s->buffer.addr.addr : (uint64_t)0,
+		       s->buffer.size, s->buffer.ptr ? 0 : 1);
 	putchar(']');
 }
 
